@@ -76,8 +76,14 @@ func (self *Compiler) compileStmt(node ast.AnalyzedStatement) {
 
 		self.insert(newOneStringInstruction(Opcode_Jump, self.CurrFn().CleanupLabel), node.Span())
 	case ast.BreakStatementKind:
+		for i := self.currLoop().tryDepth; i < self.tryDepth; i++ {
+			self.insert(newPrimitiveInstruction(Opcode_PopTryLabel), node.Span())
+		}
 		self.insert(newOneStringInstruction(Opcode_Jump, self.currLoop().labelBreak), node.Span())
 	case ast.ContinueStatementKind:
+		for i := self.currLoop().tryDepth; i < self.tryDepth; i++ {
+			self.insert(newPrimitiveInstruction(Opcode_PopTryLabel), node.Span())
+		}
 		self.insert(newOneStringInstruction(Opcode_Jump, self.currLoop().labelContinue), node.Span())
 	case ast.LoopStatementKind:
 		node := node.(ast.AnalyzedLoopStatement)
